@@ -6,7 +6,7 @@ from typing import Any, Dict, List, Optional, Set, Tuple
 
 from ..core import AnalysisError, Report
 from ..excflow import GuardFacts, dominating_guards
-from ..pyfacts import Repo, cc, cn, ancestors, calls, dotted, enclosing_func, norm, param_names, walk_no_nested
+from ..pyfacts import Repo, cc, cn, ancestors, calls, dotted, enclosing_func, norm, param_names, resolve_names, walk_no_nested
 
 PARSER = 'flipjump/assembler/fj_parser.py'
 PRE = 'flipjump/assembler/preprocessor.py'
@@ -173,9 +173,29 @@ def rule_cache_key(rep: Report, repo: Repo) -> None:
              'mtime, size) - is a component of the cache key, and the cache is consulted only with that key', 4)
     ck = repo.func(PARSER, '_stl_cache_key')
     ret = [norm(r.value) for r in ast.walk(ck) if isinstance(r, ast.Return) and r.value is not None and norm(r.value) != 'None']
-    app = [norm(c.args[0]) for c in calls(ck) if dotted(c.func) == 'files_key.append']
-    rep.check(ret == ['(memory_width, warning_as_errors, tuple(files_key))'] and app == ['(short_name, str(file_path.resolve()), file_stat.st_mtime_ns, file_stat.st_size)'],
-              'C13.CACHE-KEY', 'key components', f'{ret}; per file {app}', f'{PARSER}:{ck.lineno}')
+    # the per-file component: the appended tuple, read through locals and through a module-level helper that builds it (the
+    # helper's parameters read as the arguments passed); what is compared is the set of things the key is made of
+    app: List[List[str]] = []
+    for c in calls(ck):
+        if dotted(c.func) != 'files_key.append' or len(c.args) != 1:
+            continue
+        e = resolve_names(ck, c.args[0], allow_calls=True)
+        if isinstance(e, ast.Call) and isinstance(e.func, ast.Name) and repo.has_func(PARSER, e.func.id) and not e.keywords:
+            h = repo.func(PARSER, e.func.id)
+            hp = param_names(h)
+            vals = [r.value for r in walk_no_nested(h) if isinstance(r, ast.Return) and r.value is not None and norm(r.value) != 'None']
+            if len(vals) == 1 and len(hp) == len(e.args):
+                bind = {p_: a_ for p_, a_ in zip(hp, e.args)}
+
+                class _S(ast.NodeTransformer):
+                    def visit_Name(self, node: ast.Name) -> ast.AST:
+                        return bind[node.id] if isinstance(node.ctx, ast.Load) and node.id in bind else node
+                e = _S().visit(ast.parse(norm(resolve_names(h, vals[0], allow_calls=True)), mode='eval').body)
+        app.append(sorted(norm(x) for x in e.elts) if isinstance(e, ast.Tuple) else [norm(e)])
+    need = {'short_name', 'str(file_path.resolve())', 'file_path.stat().st_mtime_ns', 'file_path.stat().st_size'}
+    rep.check(ret == ['(memory_width, warning_as_errors, tuple(files_key))'] and len(app) == 1 and need <= set(app[0]),
+              'C13.CACHE-KEY', 'key components', f'{ret}; per file {app}', f'{PARSER}:{ck.lineno}',
+              expected=f'(width, warning mode, files) with per file at least {sorted(need)}')
     loop = [norm(n.iter) for n in ast.walk(ck) if isinstance(n, ast.For)]
     rep.check(loop == ['input_files[:prefix_length]'], 'C13.CACHE-KEY', 'key covers exactly the cached prefix', str(loop), f'{PARSER}:{ck.lineno}')
     init = repo.func(PARSER, 'FJParser.__init__')
@@ -350,7 +370,18 @@ def rule_nondet(rep: Report, repo: Repo) -> None:
     rep.check(not banned, 'C13.NONDET', 'no nondeterministic sources', str(banned), PARSER, expected='none in the assembly pipeline')
     # stat fields are used for the cache key only
     st_uses = [(q, n.lineno) for q, fn in _functions(repo, PARSER) for n in walk_no_nested(fn) if isinstance(n, ast.Attribute) and n.attr in ('st_mtime_ns', 'st_size', 'st_mtime')]
-    rep.check(all(q == '_stl_cache_key' for q, _ in st_uses) and bool(st_uses), 'C13.NONDET', 'file stat fields', str(st_uses), PARSER, expected='only inside _stl_cache_key')
+    # ... _stl_cache_key itself, or a module-level helper called from nowhere but there
+    key_only = {'_stl_cache_key'}
+    for _ in range(3):
+        for q, fn in _functions(repo, PARSER):
+            if '.' in q or q in key_only:
+                continue
+            sites = [q2 for q2, f2 in _functions(repo, PARSER) for c in calls(f2) if dotted(c.func) == q]
+            refs = [n for n in ast.walk(repo.mod(PARSER)) if isinstance(n, ast.Name) and n.id == q and isinstance(n.ctx, ast.Load)]
+            if sites and all(s_ in key_only for s_ in sites) and len(refs) == len(sites):
+                key_only.add(q)
+    rep.check(all(q in key_only for q, _ in st_uses) and bool(st_uses), 'C13.NONDET', 'file stat fields', str(st_uses), PARSER,
+              expected=f'only inside _stl_cache_key (and its private helpers {sorted(key_only - {"_stl_cache_key"})})')
     # iteration over sets
     bad = []
     n_iter = 0
